@@ -35,6 +35,8 @@ def without_rejected(prog, outs):
                 if s['op'] == 'assign':
                     s['obj'] = old2new.get(s['obj'], s['obj'])
                     apistream.remap_refs(s['raw'], old2new)
+                else:
+                    apistream.remap_refs(s['obj'], old2new)
                 new.append(s)
         elif s['op'] == 'newfile':
             old2new = {}
